@@ -157,16 +157,29 @@ Qed.
 Definition drop_falsy (o : option json) : option json :=
   match o with Some v => if truthy v then Some v else None | None => None end.
 
-(* the input class of finding 1: a set_contact_field whose field reference has a (truthy) type *)
+(* the input class of the finding typed-contact-field-ref: a set_contact_field whose field
+   reference has a (truthy) type.  [untyped_field a] excludes it. *)
 Definition untyped_field (a : xaction) : Prop :=
   match a with
   | XSetField _ f _ => forall v, xf_type f = Some v -> truthy v = false
   | _ => True
   end.
 
+(* The repair "fix: a typed contact field reference renders its own type" removes the
+   restriction: on a tree that carries it (regenerated probe [fieldref_renders_own_type] = true)
+   this is [True], on a tree that does not it is [untyped_field a]. *)
+Definition typed_field_ok (a : xaction) : Prop :=
+  if fieldref_renders_own_type then True else untyped_field a.
+
+(* the proofs below hold whatever the probes say: keep them from being unfolded by cbn *)
+Arguments fieldref_renders_own_type : simpl never.
+Arguments validate_keeps_group_attrs : simpl never.
+Arguments router_lists_shared_exit_once : simpl never.
+
 Lemma render_lower_action a :
-  wf_action a -> untyped_field a -> render_action (lower_action a) = Ok (norm_action (emit_action a)).
+  wf_action a -> typed_field_ok a -> render_action (lower_action a) = Ok (norm_action (emit_action a)).
 Proof.
+  unfold typed_field_ok.
   destruct a as [d|u tx att qr al tp tm|u f v|p u v|rm u gs ag|u n v c|u f]; cbn [wf_action untyped_field]; intros H Hty.
   - (* pass-through: the whole dict comes back; norm leaves the kind alone *)
     destruct H as [t [H1 H2]]. cbn [lower_action render_action emit_action]. unfold norm_action, type_is. cbn [jfield]. rewrite H1.
@@ -178,8 +191,11 @@ Proof.
       cbn; unfold attr_truthy, falsy; cbn;
       repeat match goal with |- context [truthy ?x] => destruct (truthy x) eqn:? end; reflexivity.
   - destruct f as [fn fk [ft|]]; cbn; unfold render_fieldref, falsy; cbn.
-    + (* a typed field reference is NOT reproduced (typed_field_refuted): here the type is falsy *)
-      rewrite (Hty ft eq_refl). reflexivity.
+    + (* a typed field reference: reproduced by the repaired code; before the repair only a
+         falsy type is (the truthy case is typed_field_witness) *)
+      destruct (truthy ft) eqn:Et; cbn; [|reflexivity].
+      revert Hty. destruct fieldref_renders_own_type; intros Hty; [reflexivity|].
+      rewrite (Hty ft eq_refl) in Et. discriminate Et.
     + reflexivity.
   - cbn in H. repeat (destruct H as [<-|H]; [reflexivity|]). destruct H.
   - destruct rm, ag as [ag|]; cbn; unfold attr_truthy, falsy; cbn;
@@ -231,16 +247,30 @@ Definition w_shared_exit : json :=
 Definition w_canonical : json :=
   w_doc [w_switch_node [w_cat 50 89; w_cat 49 79] [w_exit 50; w_exit 49] 49] [].
 
-Lemma typed_field_refuted : roundtrip w_typed_field <> Ok (norm w_typed_field).
-Proof. intros H. vm_compute in H. discriminate H. Qed.
-Lemma group_attrs_refuted : roundtrip w_group_attrs <> Ok (norm w_group_attrs).
-Proof. intros H. vm_compute in H. discriminate H. Qed.
+(* A witness that depends on a repair: reproduced exactly when the tree under check carries it.
+   One script for both trees: the branch that contradicts the regenerated probe is closed by
+   computing the probe. *)
+Ltac by_probe E :=
+  first [ vm_compute; reflexivity
+        | let H := fresh "H" in intros H; vm_compute in H; discriminate H
+        | exfalso; vm_compute in E; discriminate E ].
+
+Lemma typed_field_witness :
+  if fieldref_renders_own_type then roundtrip w_typed_field = Ok (norm w_typed_field)
+  else roundtrip w_typed_field <> Ok (norm w_typed_field).
+Proof. destruct fieldref_renders_own_type eqn:E; by_probe E. Qed.
+Lemma group_attrs_witness :
+  if validate_keeps_group_attrs then roundtrip w_group_attrs = Ok (norm w_group_attrs)
+  else roundtrip w_group_attrs <> Ok (norm w_group_attrs).
+Proof. destruct validate_keeps_group_attrs eqn:E; by_probe E. Qed.
 Lemma category_order_refuted : roundtrip w_category_order <> Ok (norm w_category_order).
 Proof. intros H. vm_compute in H. discriminate H. Qed.
 Lemma exit_order_refuted : roundtrip w_exit_order <> Ok (norm w_exit_order).
 Proof. intros H. vm_compute in H. discriminate H. Qed.
-Lemma shared_exit_refuted : roundtrip w_shared_exit <> Ok (norm w_shared_exit).
-Proof. intros H. vm_compute in H. discriminate H. Qed.
+Lemma shared_exit_witness :
+  if router_lists_shared_exit_once then roundtrip w_shared_exit = Ok (norm w_shared_exit)
+  else roundtrip w_shared_exit <> Ok (norm w_shared_exit).
+Proof. destruct router_lists_shared_exit_once eqn:E; by_probe E. Qed.
 Lemma canonical_control : roundtrip w_canonical = Ok (norm w_canonical) /\ norm w_canonical = w_canonical.
 Proof. split; vm_compute; reflexivity. Qed.
 (* every witness is loaded and rendered without error, and the second pass changes nothing *)
@@ -371,9 +401,39 @@ Lemma exit_roundtrip x :
 Proof. intros H. rewrite load_emit_exit by exact H. cbn. rewrite render_lower_exit by exact H. reflexivity. Qed.
 
 Lemma action_roundtrip a :
-  wf_action a -> untyped_field a ->
+  wf_action a -> typed_field_ok a ->
   bind (load_action (emit_action a)) render_action = Ok (norm_action (emit_action a)).
 Proof. intros H Hu. rewrite load_emit_action by exact H. cbn [bind]. apply render_lower_action; assumption. Qed.
+
+Lemma action_roundtrip_repaired :
+  fieldref_renders_own_type = true ->
+  forall a, wf_action a ->
+  bind (load_action (emit_action a)) render_action = Ok (norm_action (emit_action a)).
+Proof.
+  intros Hfix a H. apply action_roundtrip; [exact H|]. unfold typed_field_ok. rewrite Hfix. exact I.
+Qed.
+
+Lemma action_roundtrip_untyped a :
+  wf_action a -> untyped_field a ->
+  bind (load_action (emit_action a)) render_action = Ok (norm_action (emit_action a)).
+Proof.
+  intros H Hu. apply action_roundtrip; [exact H|]. unfold typed_field_ok.
+  destruct fieldref_renders_own_type; [exact I|exact Hu].
+Qed.
+
+Lemma action_roundtrip_nonvacuous :
+  let a := XSend (s1 1) (s1 2) [s1 3; JStr []] (JArr []) (Some (JBool false)) None None in
+  let b := XSetField (s1 1) {| xf_name := s1 65; xf_key := s1 97; xf_type := Some (s1 116) |} (s1 53) in
+  (wf_action a /\ typed_field_ok a /\ untyped_field a /\ norm_action (emit_action a) <> emit_action a)
+  /\ (wf_action b /\ ~ untyped_field b /\ (fieldref_renders_own_type = true -> typed_field_ok b)).
+Proof.
+  cbn zeta. split.
+  - split; [intros t H; discriminate H|]. split; [unfold typed_field_ok; destruct fieldref_renders_own_type; exact I|].
+    split; [exact I|]. intros H. vm_compute in H. discriminate H.
+  - split; [reflexivity|]. split.
+    + intros H. specialize (H _ eq_refl). discriminate H.
+    + intros Hfix. unfold typed_field_ok. rewrite Hfix. exact I.
+Qed.
 
 Lemma trigger_roundtrip t :
   wf_trigger t -> wf_channel t ->
